@@ -50,8 +50,75 @@ type shardPlan struct {
 
 type worldDesc struct {
 	N      int         `json:"n"`      // data nodes 1..N
-	Groups int         `json:"groups"` // shard group g covers [g*1000, (g+1)*1000)
-	Shards []shardPlan `json:"shards"` // in metadata order
+	Groups int         `json:"groups"` // without group_defs: shard group g covers [g*1000, (g+1)*1000) in both rps
+	Shards []shardPlan `json:"shards"` // in metadata order; Group indexes group_defs when present
+	// explicit metadata history: odd-sized groups, truncated groups with successors, deleted groups
+	GroupDefs []groupDef `json:"group_defs,omitempty"`
+}
+
+type groupDef struct {
+	RP      int    `json:"rp"`
+	Start   int64  `json:"start"`
+	End     int64  `json:"end"`
+	Trunc   *int64 `json:"trunc,omitempty"` // TruncatedAt
+	Deleted bool   `json:"deleted,omitempty"`
+}
+
+// defs returns the shard groups of the world and, for each shard, the index of its group
+func (w worldDesc) defs() ([]groupDef, []int) {
+	idx := make([]int, len(w.Shards))
+	if len(w.GroupDefs) > 0 {
+		for i, sp := range w.Shards {
+			idx[i] = sp.Group
+		}
+		return w.GroupDefs, idx
+	}
+	var ds []groupDef
+	for rp := 0; rp < 2; rp++ {
+		for g := 0; g < w.Groups; g++ {
+			ds = append(ds, groupDef{RP: rp, Start: int64(g) * 1000, End: int64(g+1) * 1000})
+		}
+	}
+	for i, sp := range w.Shards {
+		idx[i] = sp.RP*w.Groups + sp.Group
+	}
+	return ds, idx
+}
+
+// groupsOfRP: the groups of one retention policy that have shards, in metadata order
+// (sorted by start time, as meta.Data keeps them), each with the indexes of its shards
+func (w worldDesc) groupsOfRP(rp int) (gs []groupDef, shards [][]int) {
+	ds, idx := w.defs()
+	var order []int
+	for gi, g := range ds {
+		if g.RP != rp {
+			continue
+		}
+		has := false
+		for i := range w.Shards {
+			has = has || idx[i] == gi
+		}
+		if has {
+			order = append(order, gi)
+		}
+	}
+	sort.SliceStable(order, func(a, b int) bool { return ds[order[a]].Start < ds[order[b]].Start })
+	for _, gi := range order {
+		gs = append(gs, ds[gi])
+		var sh []int
+		for i := range w.Shards {
+			if idx[i] == gi {
+				sh = append(sh, i)
+			}
+		}
+		shards = append(shards, sh)
+	}
+	return
+}
+
+func (w worldDesc) shardDeleted(i int) bool {
+	ds, idx := w.defs()
+	return ds[idx[i]].Deleted
 }
 
 type faultPlan struct {
@@ -679,34 +746,35 @@ func buildWorld(d worldDesc, deadAddr string) *world {
 	// metadata: a real meta.Data with hand-placed shard groups (arbitrary ownership layouts)
 	var rps []meta.RetentionPolicyInfo
 	for rp := 0; rp < 2; rp++ {
-		groups := make([]meta.ShardGroupInfo, d.Groups)
-		for g := range groups {
-			groups[g] = meta.ShardGroupInfo{ID: uint64(rp*100 + g + 1), StartTime: time.Unix(0, int64(g)*1000), EndTime: time.Unix(0, int64(g+1)*1000)}
-		}
-		for _, sp := range d.Shards {
-			if sp.RP != rp {
-				continue
+		gds, gshards := d.groupsOfRP(rp)
+		var groups []meta.ShardGroupInfo
+		for gi, gd := range gds {
+			g := meta.ShardGroupInfo{ID: uint64(rp*100 + gi + 1), StartTime: time.Unix(0, gd.Start), EndTime: time.Unix(0, gd.End)}
+			if gd.Trunc != nil {
+				g.TruncatedAt = time.Unix(0, *gd.Trunc)
 			}
-			si := meta.ShardInfo{ID: sp.ID}
-			for _, o := range sp.Owners {
-				si.Owners = append(si.Owners, meta.ShardOwner{NodeID: o})
+			if gd.Deleted {
+				g.DeletedAt = time.Unix(0, 1)
 			}
-			groups[sp.Group].Shards = append(groups[sp.Group].Shards, si)
-		}
-		// a shard group without shards does not exist in real metadata
-		var nonEmpty []meta.ShardGroupInfo
-		for _, g := range groups {
-			if len(g.Shards) > 0 {
-				nonEmpty = append(nonEmpty, g)
+			for _, si := range gshards[gi] {
+				sp := d.Shards[si]
+				info := meta.ShardInfo{ID: sp.ID}
+				for _, o := range sp.Owners {
+					info.Owners = append(info.Owners, meta.ShardOwner{NodeID: o})
+				}
+				g.Shards = append(g.Shards, info)
 			}
+			groups = append(groups, g)
 		}
-		rps = append(rps, meta.RetentionPolicyInfo{Name: rpName(rp), ReplicaN: 1, ShardGroupDuration: time.Hour, ShardGroups: nonEmpty})
+		rps = append(rps, meta.RetentionPolicyInfo{Name: rpName(rp), ReplicaN: 1, ShardGroupDuration: time.Hour, ShardGroups: groups})
 	}
 	w.data = &meta.Data{Databases: []meta.DatabaseInfo{{Name: "db", DefaultRetentionPolicy: "rp", RetentionPolicies: rps}}}
 	// reference: one store holding every shard once
 	w.ref = openStore(dir + "/ref")
-	for _, sp := range d.Shards {
-		loadShard(w.ref, sp)
+	for i, sp := range d.Shards {
+		if !d.shardDeleted(i) { // data of a deleted group is no longer part of the database
+			loadShard(w.ref, sp)
+		}
 	}
 	for id := uint64(1); id <= uint64(d.N); id++ {
 		n := &node{id: id}
@@ -921,9 +989,27 @@ func validQuery(d queryDesc) bool {
 	if w.N < 1 || w.N > 6 || w.Groups < 1 || w.Groups > 8 || d.Local < 1 || d.Local > uint64(w.N) || d.Tmin < 0 || d.Tmax < d.Tmin {
 		return false
 	}
+	if len(w.GroupDefs) > 16 {
+		return false
+	}
+	for _, gd := range w.GroupDefs {
+		if gd.RP < 0 || gd.RP > 1 || gd.Start < 0 || gd.End <= gd.Start || gd.End > 1<<40 {
+			return false
+		}
+		if gd.Trunc != nil && (*gd.Trunc < gd.Start || *gd.Trunc >= gd.End) {
+			return false
+		}
+	}
+	ngroups := w.Groups
+	if len(w.GroupDefs) > 0 {
+		ngroups = len(w.GroupDefs)
+	}
 	ids, times := map[uint64]bool{}, map[int64]bool{}
 	for _, sp := range w.Shards {
-		if sp.ID == 0 || ids[sp.ID] || len(sp.Owners) == 0 || sp.Group < 0 || sp.Group >= w.Groups {
+		if sp.ID == 0 || ids[sp.ID] || len(sp.Owners) == 0 || sp.Group < 0 || sp.Group >= ngroups || sp.RP < 0 || sp.RP > 1 {
+			return false
+		}
+		if len(w.GroupDefs) > 0 && w.GroupDefs[sp.Group].RP != sp.RP {
 			return false
 		}
 		ids[sp.ID] = true
@@ -935,7 +1021,11 @@ func validQuery(d queryDesc) bool {
 			seen[ow] = true
 		}
 		for _, t := range sp.Times {
-			if times[t] || t < int64(sp.Group)*1000 || t >= int64(sp.Group+1)*1000 {
+			lo, hi := int64(sp.Group)*1000, int64(sp.Group+1)*1000
+			if len(w.GroupDefs) > 0 {
+				lo, hi = w.GroupDefs[sp.Group].Start, w.GroupDefs[sp.Group].End
+			}
+			if times[t] || t < lo || t >= hi {
 				return false
 			}
 			times[t] = true
@@ -1005,21 +1095,40 @@ func runQuery(o *hx.Out, d queryDesc, origin string) {
 		}
 	}
 
-	// reference: the same operations on one store holding the union, through LocalShardMapper
-	refMapper := &coordinator.LocalShardMapper{MetaClient: mc, TSDBStore: w.ref}
-	refSg, err := refMapper.MapShards(sources, tr, query.SelectOptions{})
-	if err != nil {
-		panic(err)
+	// reference, independent of the metadata lookup under test: one store holding the union of
+	// the live data.  Rows (ci): every shard of the retention policy, filtered by time only.
+	// Fields / cost (fd, ic): the shards of the live groups whose nominal range [start, end)
+	// meets [tmin, tmax].
+	refFor := func(all bool) *coordinator.LocalShardMapping {
+		lm := &coordinator.LocalShardMapping{ShardMap: map[coordinator.Source]tsdb.ShardGroup{}, MinTime: tr.Min, MaxTime: tr.Max}
+		for rp := 0; rp < 2; rp++ {
+			gds, gshards := d.World.groupsOfRP(rp)
+			var ids []uint64
+			for gi, gd := range gds {
+				if gd.Deleted || (!all && !(gd.Start <= d.Tmax && gd.End > d.Tmin)) {
+					continue
+				}
+				for _, si := range gshards[gi] {
+					ids = append(ids, d.World.Shards[si].ID)
+				}
+			}
+			lm.ShardMap[coordinator.Source{Database: "db", RetentionPolicy: rpName(rp)}] = w.ref.ShardGroup(ids)
+		}
+		return lm
 	}
+	refAll, refMust := refFor(true), refFor(false)
 	var refs []opObs
 	for i, op := range d.Ops {
-		r := runOp(refSg, measurementOf(srcs[d.opSrc(i)]), op)
+		rsg := refMust
+		if op == "ci" {
+			rsg = refAll
+		}
+		r := runOp(rsg, measurementOf(srcs[d.opSrc(i)]), op)
 		if r.Err {
 			panic("reference failed: " + r.Msg)
 		}
 		refs = append(refs, r)
 	}
-	refSg.Close()
 
 	var sg query.ShardGroup
 	var mapErr error
@@ -1100,11 +1209,7 @@ func runQuery(o *hx.Out, d queryDesc, origin string) {
 	sg.Close()
 
 	// ---- build the Coq case
-	plan := map[uint64]shardPlan{}
-	for _, sp := range d.World.Shards {
-		plan[sp.ID] = sp
-	}
-	var viewsC, dataC []string
+	var groupsC, oviewsC, dataC []string
 	viewIDs := []uint64{}
 	rowsObs := map[string][]uint64{}
 	for rp := 0; rp < 2; rp++ {
@@ -1112,24 +1217,35 @@ func runQuery(o *hx.Out, d queryDesc, origin string) {
 		if !ok {
 			continue
 		}
-		var shardsC []string
+		var vids []uint64
 		for _, si := range view {
-			var owners []uint64
-			for _, ow := range si.Owners {
-				owners = append(owners, ow.NodeID)
-			}
-			shardsC = append(shardsC, fmt.Sprintf("(%d, %s)", si.ID, hx.CoqNList(owners)))
-			rows := []uint64{}
-			for _, t := range plan[si.ID].Times {
-				if t >= d.Tmin && t <= d.Tmax {
-					rows = append(rows, uint64(t))
-				}
-			}
+			vids = append(vids, si.ID)
 			viewIDs = append(viewIDs, si.ID)
-			rowsObs[strconv.FormatUint(si.ID, 10)] = rows
-			dataC = append(dataC, fmt.Sprintf("(%d, %s)", si.ID, hx.CoqNList(rows)))
 		}
-		viewsC = append(viewsC, fmt.Sprintf("(%d, %s)", rp, hx.CoqList(shardsC)))
+		oviewsC = append(oviewsC, fmt.Sprintf("(%d, %s)", rp, hx.CoqNList(vids)))
+		gds, gshards := d.World.groupsOfRP(rp)
+		var gsC []string
+		for gi, gd := range gds {
+			var shardsC []string
+			for _, si := range gshards[gi] {
+				sp := d.World.Shards[si]
+				shardsC = append(shardsC, fmt.Sprintf("(%d, %s)", sp.ID, hx.CoqNList(sp.Owners)))
+				rows := []uint64{}
+				for _, t := range sp.Times {
+					if t >= d.Tmin && t <= d.Tmax {
+						rows = append(rows, uint64(t))
+					}
+				}
+				rowsObs[strconv.FormatUint(sp.ID, 10)] = rows
+				dataC = append(dataC, fmt.Sprintf("(%d, %s)", sp.ID, hx.CoqNList(rows)))
+			}
+			tr := "None"
+			if gd.Trunc != nil {
+				tr = "(Some " + hx.CoqZ(*gd.Trunc) + ")"
+			}
+			gsC = append(gsC, fmt.Sprintf("(%s, %s, %s, %s, %s)", hx.CoqZ(gd.Start), hx.CoqZ(gd.End), tr, hx.CoqBool(gd.Deleted), hx.CoqList(shardsC)))
+		}
+		groupsC = append(groupsC, fmt.Sprintf("(%d, %s)", rp, hx.CoqList(gsC)))
 	}
 	var behC, srcsC, opsC, refsC, omapC, oresC, ologsC []string
 	nfault, ncalls := 0, 0
@@ -1173,9 +1289,10 @@ func runQuery(o *hx.Out, d queryDesc, origin string) {
 		}
 		omapC = append(omapC, fmt.Sprintf("(%d, (%s, %s))", sm.RP, hx.CoqNList(sm.Local), hx.CoqList(rem)))
 	}
-	coq := fmt.Sprintf("CQuery %d %s %s %s %s %s %s %s %s %s %s", d.Local, hx.CoqList(viewsC), hx.CoqList(dataC),
+	coq := fmt.Sprintf("CQuery %d %s %s %s %s %s %s %s %s %s %s %s %s %s", d.Local, hx.CoqZ(d.Tmin), hx.CoqZ(d.Tmax),
+		hx.CoqList(groupsC), hx.CoqList(dataC),
 		hx.CoqNList(d.Down), hx.CoqList(behC), hx.CoqList(srcsC), hx.CoqList(opsC), hx.CoqList(refsC),
-		hx.CoqList(omapC), hx.CoqList(oresC), hx.CoqList(ologsC))
+		hx.CoqList(oviewsC), hx.CoqList(omapC), hx.CoqList(oresC), hx.CoqList(ologsC))
 
 	// ---- evidence bookkeeping
 	o.Count(fmt.Sprintf("query:nodes=%d", d.World.N))
@@ -1353,6 +1470,117 @@ func genWorld(r *hx.Rand, tier string) worldDesc {
 	return d
 }
 
+func genOwners(r *hx.Rand, n int) []uint64 {
+	perm := []uint64{}
+	for x := 1; x <= n; x++ {
+		perm = append(perm, uint64(x))
+	}
+	for i := len(perm) - 1; i > 0; i-- {
+		j := r.Intn(i + 1)
+		perm[i], perm[j] = perm[j], perm[i]
+	}
+	return perm[:1+r.Intn(n)]
+}
+
+// genHistoryWorld: a metadata history as TRUNCATE SHARDS / ALTER RETENTION POLICY ... SHARD
+// DURATION / DROP SHARD leave it: odd-sized consecutive groups, truncated groups (holding points
+// stamped after the truncation time, written before it) followed by a successor group
+// [truncatedAt, end), deleted groups (optionally re-created).
+func genHistoryWorld(r *hx.Rand, tier string) worldDesc {
+	n := 2 + r.Intn(2)
+	d := worldDesc{N: n}
+	id := uint64(1)
+	used := map[int64]bool{}
+	addShards := func(gi int, rp int, lo, hi int64, minPts int) {
+		ns := 1 + r.Intn(2)
+		for k := 0; k < ns; k++ {
+			sp := shardPlan{ID: id, Group: gi, RP: rp, Owners: genOwners(r, n)}
+			np := minPts + r.Intn(3)
+			for j := 0; j < np; j++ {
+				t := lo + int64(r.Intn(int(hi-lo)))
+				switch r.Intn(6) { // bias to the edges of the group
+				case 0:
+					t = lo
+				case 1:
+					t = hi - 1
+				}
+				if !used[t] {
+					used[t] = true
+					sp.Times = append(sp.Times, t)
+				}
+			}
+			d.Shards = append(d.Shards, sp)
+			id++
+		}
+	}
+	nrp := 1
+	if r.Chance(30) {
+		nrp = 2
+	}
+	for rp := 0; rp < nrp; rp++ {
+		t := int64(0)
+		ng := 2 + r.Intn(3)
+		for i := 0; i < ng; i++ {
+			dur := []int64{1000, 700, 1300, 500, 250}[r.Intn(5)]
+			g := groupDef{RP: rp, Start: t, End: t + dur}
+			switch r.Intn(10) {
+			case 0, 1, 2, 3: // truncated, with a successor
+				at := t + int64(r.Intn(int(dur)))
+				if r.Chance(15) {
+					at = t // truncated before it took any write ("future" group)
+				}
+				g.Trunc = &at
+				d.GroupDefs = append(d.GroupDefs, g)
+				addShards(len(d.GroupDefs)-1, rp, t, t+dur, 1) // points on both sides of the truncation time
+				if r.Chance(80) {
+					d.GroupDefs = append(d.GroupDefs, groupDef{RP: rp, Start: at, End: t + dur})
+					addShards(len(d.GroupDefs)-1, rp, at, t+dur, 0)
+				}
+			case 4: // deleted, possibly re-created
+				g.Deleted = true
+				d.GroupDefs = append(d.GroupDefs, g)
+				addShards(len(d.GroupDefs)-1, rp, t, t+dur, 1)
+				if r.Bool() {
+					d.GroupDefs = append(d.GroupDefs, groupDef{RP: rp, Start: t, End: t + dur})
+					addShards(len(d.GroupDefs)-1, rp, t, t+dur, 0)
+				}
+			default:
+				d.GroupDefs = append(d.GroupDefs, g)
+				addShards(len(d.GroupDefs)-1, rp, t, t+dur, 0)
+			}
+			t += dur
+			if r.Chance(15) {
+				t += 300 // a gap without any group
+			}
+		}
+	}
+	d.Groups = len(d.GroupDefs)
+	return d
+}
+
+// range bounds exactly at group start / end / truncation time, and one off
+func boundaryRange(r *hx.Rand, w worldDesc) (int64, int64) {
+	var pts []int64
+	for _, g := range w.GroupDefs {
+		pts = append(pts, g.Start, g.End)
+		if g.Trunc != nil {
+			pts = append(pts, *g.Trunc)
+		}
+	}
+	pick := func() int64 {
+		t := pts[r.Intn(len(pts))] + int64(r.Intn(3)) - 1
+		if t < 0 {
+			t = 0
+		}
+		return t
+	}
+	a, b := pick(), pick()
+	if a > b {
+		a, b = b, a
+	}
+	return a, b
+}
+
 func genQuery(r *hx.Rand, w worldDesc, cleanOK bool) queryDesc {
 	d := queryDesc{World: w, Local: uint64(1 + r.Intn(w.N))}
 	ownsNone := []uint64{}
@@ -1394,6 +1622,15 @@ func genQuery(r *hx.Rand, w worldDesc, cleanOK bool) queryDesc {
 	if r.Chance(20) {
 		d.Tmin += int64(r.Intn(300))
 		d.Tmax -= int64(r.Intn(300))
+	}
+	if len(w.GroupDefs) > 0 {
+		d.Tmin, d.Tmax = boundaryRange(r, w)
+		if r.Chance(15) {
+			d.Tmin = 0
+		}
+		if r.Chance(15) {
+			d.Tmax = 1 << 20
+		}
 	}
 	d.Down = []uint64{}
 	for n := 1; n <= w.N; n++ {
@@ -1496,6 +1733,28 @@ func designedMultiSource(o *hx.Out) {
 	}
 }
 
+// TRUNCATE SHARDS at 400 inside group [0,1000): the truncated group keeps points stamped 600
+// and 900 (written before the truncation), the successor [400,1000) holds 450 and 950.  Ranges
+// with bounds at / around the truncation time and the group ends; a deleted group after it.
+func designedTruncated(o *hx.Out) {
+	at := int64(400)
+	w := worldDesc{N: 2, Groups: 4, GroupDefs: []groupDef{
+		{RP: 0, Start: 0, End: 1000, Trunc: &at}, {RP: 0, Start: 400, End: 1000},
+		{RP: 0, Start: 1000, End: 1700, Deleted: true}, {RP: 0, Start: 1000, End: 1700}},
+		Shards: []shardPlan{
+			{ID: 1, Owners: []uint64{2}, Group: 0, Times: []int64{100, 399, 400, 600, 900}},
+			{ID: 2, Owners: []uint64{1, 2}, Group: 1, Times: []int64{450, 950, 999}},
+			{ID: 3, Owners: []uint64{2}, Group: 2, Times: []int64{1001, 1500}},
+			{ID: 4, Owners: []uint64{2, 1}, Group: 3, Times: []int64{1000, 1699}}}}
+	for _, rg := range [][2]int64{{0, 399}, {399, 400}, {400, 400}, {400, 999}, {401, 1000}, {500, 2000}, {999, 999},
+		{1000, 1000}, {1000, 1699}, {1700, 1800}, {0, 5000}, {950, 1001}} {
+		for local := uint64(1); local <= 2; local++ {
+			runQuery(o, queryDesc{World: w, Local: local, Tmin: rg[0], Tmax: rg[1], Down: []uint64{},
+				Fault: faultPlan{Seed: 5}, Ops: []string{"ci", "ic", "fd"}}, "designed")
+		}
+	}
+}
+
 // a retry round with two nodes of which one fails while the other succeeds, followed by a
 // successful round: the partial results of the failed round must be discarded.
 // 4 nodes, coordinator 1 owns nothing; shard 1 on [2,4,3], shard 2 on [2,3]; node 2 is down.
@@ -1571,6 +1830,7 @@ func main() {
 	designed(o)
 	designedPartialRound(o)
 	designedMultiSource(o)
+	designedTruncated(o)
 	perWorld := 40
 	if f.Tier == "thorough" {
 		perWorld = 120
@@ -1578,7 +1838,11 @@ func main() {
 	var w worldDesc
 	for i := 0; i < f.N; i++ {
 		if i%perWorld == 0 {
-			w = genWorld(r, f.Tier)
+			if (i/perWorld)%3 == 2 {
+				w = genHistoryWorld(r, f.Tier)
+			} else {
+				w = genWorld(r, f.Tier)
+			}
 		}
 		// every 8th case may cut a stream exactly at a frame boundary (open finding)
 		runQuery(o, genQuery(r, w, i%8 == 7), "gen")
